@@ -50,6 +50,7 @@ func (s *State) clone() *State {
 }
 
 type VC struct {
+	invAssume map[int]string // assert index -> label of the declared loop invariant assumed there
 	e       *Engine
 	unit    string
 	decls   []string
